@@ -104,13 +104,14 @@ def run_C01(ctx):
         ("rel", "P1q", "S12", 5 if q else 6, pr, {}), ("sec", "P1q", "S12", 4 if q else 5, pr, {}),
         ("rel", "P2g", "S9", 3 if q else 4, [], {}),
         ("rel", "P8d", "S10", 5 if q else 6, ["--dirty"] + pr, {}),
+        ("rel", "P8t", "S14", 5 if q else 6, ["--prune"], {}),
         ("dbg", "P1", "S0", 4 if q else 6, pr, {}), ("sec", "P1", "S0", 4 if q else 6, pr, {}),
         ("dbg", "P2", "S0", 3 if q else 4, pr, {}), ("sec", "P3r", "S0", 3 if q else 4, pr, {}),
     ]
     grid = [("rel", "entry", not q, {}), ("rel", "align", False, {}), ("dbg", "entry", False, {}), ("sec", "entry", False, {}),
             ("rel", "fillpage", False, {}), ("sec", "fillpage", False, {}), ("dbg", "fillpage", False, {})]
     return mixed_property(ctx, plan, grid,
-        rule="P8d from S10 with dirtying: a 100 MiB block is filled with 0xFF and released, then 17 MiB and 1 MiB blocks need fresh segments on the arena blocks it occupied (a new segment's header must inherit nothing). P2g from S9: a 2040 MiB block (exactly 64 arena blocks: one whole bitmap field of the 4 GiB arena) next to 17 MiB blocks (blocks above 256 MiB carry their pattern in the first and last 4 KiB and one word per MiB). P1q from S12: page-queue transitions of a small class served through the direct-page table: a 512-byte page heads the full queue, the 1024-byte queue is [B exhausted but not yet looked at, A back from the full queue]; operations malloc(1024), malloc(64), collect, free(i) and free_page_of(i) (every live block of one page in one operation) up to depth D. P8g from S11: three adjacent 3 MiB pages and a 1 MiB guard block in one segment; released in any order they coalesce into one span covering whole 64-slice fields of the segment's commit and purge masks, 9 MiB are allocated over it, collected and purged (also with lazy commit). P8f from S10: a segment filled to its end with 1 MiB pages; release / re-use / collect / clock ticks at its far end (last field of the commit and purge masks). P2 from S9: a 4 GiB arena whose first block holds a live segment and whose blocks 1..63 are taken, so that new segments get arena block indices >= 64 (second bitmap field). fillpage: for every size class up to 1 KiB and seven consecutive pages of it, the page is filled to its very last block while the next slice holds the page of a larger class (first block at the start of the slice); every block is checked against all live ones. inputs: every allocation entry point (30) x boundary size grid x release variant, and the (size, alignment, offset) grid of C03, in carried-over heap states; histories: all sequences of operations of each profile alphabet (P1 page life-cycle {malloc 8K/48, fill, free(i), collect}, P2 spans {64K,100K,1M,17M,40M}, P3 small, P3r realloc, P7t threads, P4h heaps) up to depth D from start states S0..S4; node oracle: every live block's whole usable range holds its pattern, new blocks are disjoint from live ones, aligned, inside accessible memory.",
+        rule="P8t from S14: a segment used to its very last slice (7 small pages, 31 pages of 1 MiB, a 512 KiB page); the last pages are released in either order, a 1.5 MiB page is built on the coalesced span that ends exactly at the segment's end, a second passes, forced collect. P8d from S10 with dirtying: a 100 MiB block is filled with 0xFF and released, then 17 MiB and 1 MiB blocks need fresh segments on the arena blocks it occupied (a new segment's header must inherit nothing). P2g from S9: a 2040 MiB block (exactly 64 arena blocks: one whole bitmap field of the 4 GiB arena) next to 17 MiB blocks (blocks above 256 MiB carry their pattern in the first and last 4 KiB and one word per MiB). P1q from S12: page-queue transitions of a small class served through the direct-page table: a 512-byte page heads the full queue, the 1024-byte queue is [B exhausted but not yet looked at, A back from the full queue]; operations malloc(1024), malloc(64), collect, free(i) and free_page_of(i) (every live block of one page in one operation) up to depth D. P8g from S11: three adjacent 3 MiB pages and a 1 MiB guard block in one segment; released in any order they coalesce into one span covering whole 64-slice fields of the segment's commit and purge masks, 9 MiB are allocated over it, collected and purged (also with lazy commit). P8f from S10: a segment filled to its end with 1 MiB pages; release / re-use / collect / clock ticks at its far end (last field of the commit and purge masks). P2 from S9: a 4 GiB arena whose first block holds a live segment and whose blocks 1..63 are taken, so that new segments get arena block indices >= 64 (second bitmap field). fillpage: for every size class up to 1 KiB and seven consecutive pages of it, the page is filled to its very last block while the next slice holds the page of a larger class (first block at the start of the slice); every block is checked against all live ones. inputs: every allocation entry point (30) x boundary size grid x release variant, and the (size, alignment, offset) grid of C03, in carried-over heap states; histories: all sequences of operations of each profile alphabet (P1 page life-cycle {malloc 8K/48, fill, free(i), collect}, P2 spans {64K,100K,1M,17M,40M}, P3 small, P3r realloc, P7t threads, P4h heaps) up to depth D from start states S0..S4; node oracle: every live block's whole usable range holds its pattern, new blocks are disjoint from live ones, aligned, inside accessible memory.",
         assumptions=COMMON_ASSUME + ["free(i) is enumerated for all i while at most `free_window` blocks are live, else for the first and last window/2"])
 
 # ------------------------------------------------------------------------------------------------
@@ -225,13 +226,15 @@ def run_C12(ctx):
         ("rel", "P3r", "S0", 3 if q else 4, ["--observe", "walk"], {}), ("rel", "P5", "S0", 3 if q else 4, ["--observe", "walk"], {}),
         ("rel", "P7t", "S0", 4 if q else 5, ["--observe", "walk,abandoned"], AB), ("rel", "P7t", "S5", 4 if q else 5, ["--observe", "abandoned"], ABN),
         ("rel", "P7t", "S0", 4 if q else 5, ["--observe", "abandoned"], ABO),
+        # the helper threads' segments land in arena block 127 (last bit of the second bitmap field) and in the third field
+        ("rel", "P7t", "S13", 3 if q else 4, ["--observe", "abandoned"], ABN),
         # blocks of exited threads in arena segments and in segments straight from the OS at the same time (40 MiB does not fit a 32 MiB arena reserve)
         ("rel", "P7m", "S0", 3 if q else 4, ["--observe", "abandoned"], envs(ABN, {"MIMALLOC_ARENA_RESERVE": "32MiB"})),
         ("dbg", "P1", "S0", 4 if q else 5, ["--observe", "walk"], {}), ("sec", "P6w", "S0", 3 if q else 5, ["--observe", "walk"], {}),
         ("dbg", "P7t", "S5", 3 if q else 4, ["--observe", "abandoned"], ABN),
     ]
     return seq_property(ctx, plan,
-        rule="(a walk of the blocks of terminated threads is stopped at call 1 -- an area callback --, 2, 3 and 4, each followed by a complete walk) abandoned-walk observer additionally: the sub-process counter of abandoned segments equals the segments marked in the arenas plus those linked in the OS list; a walk stopped by the visitor at call 2 / 3 is followed by a complete walk that must equal the first one. All operation sequences of the profiles up to depth D; at every node, in a throw-away fork, every heap of the thread is walked with mi_heap_visit_blocks and compared with the reference model (each live block reported once by an enclosing range, no range without a live block except heap descriptors in the backing heap, area.used sum == visited blocks, early stop after k visitor calls for k=1..6); hole patterns: 8-block pages (all masks reachable), 64 x 1 KiB (one full bitmap word) and 127 x 512 B pages with free_every(k,phase); abandoned walk: blocks of exited threads reported exactly once by mi_abandoned_visit_blocks or by the adopting heap, for arena segments (one and two bitmap fields, start state S5) and OS segments.",
+        rule="(start state S13: a 5 GiB arena whose blocks 1..126 are taken, so that abandoned segments sit in arena block 127 -- bit 63 of an odd bitmap field -- and beyond; an operation that does not finish within 120 s is reported as a hang) (a walk of the blocks of terminated threads is stopped at call 1 -- an area callback --, 2, 3 and 4, each followed by a complete walk) abandoned-walk observer additionally: the sub-process counter of abandoned segments equals the segments marked in the arenas plus those linked in the OS list; a walk stopped by the visitor at call 2 / 3 is followed by a complete walk that must equal the first one. All operation sequences of the profiles up to depth D; at every node, in a throw-away fork, every heap of the thread is walked with mi_heap_visit_blocks and compared with the reference model (each live block reported once by an enclosing range, no range without a live block except heap descriptors in the backing heap, area.used sum == visited blocks, early stop after k visitor calls for k=1..6); hole patterns: 8-block pages (all masks reachable), 64 x 1 KiB (one full bitmap word) and 127 x 512 B pages with free_every(k,phase); abandoned walk: blocks of exited threads reported exactly once by mi_abandoned_visit_blocks or by the adopting heap, for arena segments (one and two bitmap fields, start state S5) and OS segments.",
         assumptions=COMMON_ASSUME + ["states with a pending cross-thread free (remote_free not yet followed by a collect of that heap) only require that no live block is missing; extra reports and used counts are outside the statement there",
                                      "the abandoned-walk runs set MIMALLOC_VISIT_ABANDONED=1 (required by the API) and, where stated, MIMALLOC_MAX_SEGMENT_RECLAIM=0 so that several abandoned segments coexist"])
 
@@ -293,9 +296,12 @@ def run_C13(ctx):
              ("rel", "H4", 2, 0, P0), ("rel", "E1", 1 if q else 2, 0, envs(P0, {"MIMALLOC_ABANDONED_RECLAIM_ON_FREE": "1"})), ("rel", "H2", 1 if q else 2, 0, envs(P0, LAZY)),
              ("dbg", "H4n", 2, 0, {}), ("sec", "H4n", 2, 0, {}), ("rel", "H4n", 2, 0, {"VF_RESET_ZERO": "1"}), ("dbg", "H4", 1 if q else 2, 0, {}),
              ("rel", "AB1", 2, 0, RF), ("dbg", "AB1", 1 if q else 2, 0, RF), ("rel", "AB1", 1 if q else 2, 0, envs(RF, {"MIMALLOC_PURGE_DECOMMITS": "0", "VF_RESET_ZERO": "1"}))]
+    # per-thread segment target: forced abandonment of a segment that the flush of the delayed list empties on the way
+    T2 = {"MIMALLOC_TARGET_SEGMENTS_PER_THREAD": "2"}
+    cplan += [("rel", "E3d", 2, 0, T2), ("rel", "E3d", 1 if q else 2, 0, envs(T2, NOARENA)), ("dbg", "E3d", 1, 0, T2), ("rel", "E3c", 1 if q else 2, 0, envs(T2, RF, P0))]
     race = race_jobs(ctx, [("A2", P0), ("AB1", RF), ("H4", P0)])
     res = conc_property(ctx, conc_jobs(ctx, cplan), extra_jobs=seq_jobs(ctx, plan) + race,
-        rule=RACE_NOTE.strip() + " The C01/C04/C05/C12 oracles re-run under option configurations: quick = a pairwise-covering set of {purge_delay -1/0/5, purge_decommits, eager_commit, eager_commit_delay, arena_eager_commit 0/1/2, disallow_arena_alloc, arena_reserve 64MiB/1GiB, abandoned_reclaim_on_free, target_segments_per_thread 0/2, MADV_FREE keeps/drops contents} (thorough: + the full product of the nine allocator options) x all sequences of profile P8o {malloc 8K/64K/1M/17M, zalloc 8K, realloc, free(i), collect(0/1), tick(+1000ms)} (and P7t with threads) up to depth D, alternating rel/dbg/sec builds; additional monitor inside the OS shim: no madvise(DONTNEED/FREE), mprotect(PROT_NONE) or munmap range may intersect a live block; debug/secure builds revoke access on decommit so any touch of decommitted memory is a crash. Concurrent clause (schedule explorer): arena free/alloc/collect races (A1, A2) and remote-free / thread-exit programs (H2, H4, E1) with immediate purging by decommit and by reset: a purge that hits memory another thread just claimed destroys that thread's pattern.",
+        rule=RACE_NOTE.strip() + " E3d (target_segments_per_thread=2; also with segments straight from the OS): the other thread frees every block of the segment that is about to be force-abandoned, so that flushing the delayed list empties it while the loop over its pages still runs. The C01/C04/C05/C12 oracles re-run under option configurations: quick = a pairwise-covering set of {purge_delay -1/0/5, purge_decommits, eager_commit, eager_commit_delay, arena_eager_commit 0/1/2, disallow_arena_alloc, arena_reserve 64MiB/1GiB, abandoned_reclaim_on_free, target_segments_per_thread 0/2, MADV_FREE keeps/drops contents} (thorough: + the full product of the nine allocator options) x all sequences of profile P8o {malloc 8K/64K/1M/17M, zalloc 8K, realloc, free(i), collect(0/1), tick(+1000ms)} (and P7t with threads) up to depth D, alternating rel/dbg/sec builds; additional monitor inside the OS shim: no madvise(DONTNEED/FREE), mprotect(PROT_NONE) or munmap range may intersect a live block; debug/secure builds revoke access on decommit so any touch of decommitted memory is a crash. Concurrent clause (schedule explorer): arena free/alloc/collect races (A1, A2) and remote-free / thread-exit programs (H2, H4, E1) with immediate purging by decommit and by reset: a purge that hits memory another thread just claimed destroys that thread's pattern.",
         assumptions=COMMON_ASSUME + SCHED_ASSUME + ["options are set through MIMALLOC_* environment variables and parsed by the real option code at process start"])
     res["coverage"]["configurations"] = len(cfgs)
     res["coverage"]["configuration_samples"] = cfgs[:3]
@@ -342,11 +348,13 @@ def run_C07(ctx):
             # the OS does not honour address hints (misaligned results: release + over-allocate + trim), with and without arenas
             ("rel", "fault", [], {"VF_IGNORE_HINT": "1"}), ("rel", "fault", [], envs(NOA, {"VF_IGNORE_HINT": "1"})),
             # pairs of failures for one workload (also exercises the known finding "fresh segment kept without pages")
-            ("rel", "fault", ["--pairs", "--only-workload", "realloc"], envs(LAZY, P0, NOA))]
+            ("rel", "fault", ["--pairs", "--only-workload", "realloc"], envs(LAZY, P0, NOA)),
+            # reservation of huge OS pages with every OS call refused in turn
+            ("rel", "fault", ["--only-workload", "hugepages"], {}), ("sec", "fault", ["--only-workload", "hugepages"], {}), ("rel", "fault", ["--pairs", "--only-workload", "hugepages"], {})]
     if not q:
         plan += [("rel", "fault", fl, envs(SMALL, P0, {"MIMALLOC_PURGE_DECOMMITS": "0"})), ("sec", "fault", [], NOA), ("dbg", "fault", [], NOA), ("rel", "fault", [], envs(LAZY, SMALL))]
     return os_property(ctx, plan, level="fault_enumeration",
-        rule="(two configurations let the modelled OS ignore address hints: hinted mappings come back misaligned and are replaced by trimmed over-allocations) for each of 9 workloads (small/medium churn, large, huge, over-aligned huge, threads with exit+reclaim, heaps new/delete/destroy, realloc chains, mixed, 32 arena reservations of 32 MiB followed by blocks of three kinds) the fault-free run counts its N OS calls (mmap/munmap/mprotect/madvise through the shim); then every k < N is run with (a) a single refusal at call k and (b) persistent refusal from call k of mmap / mprotect / madvise / munmap / all kinds (thorough: also every pair k1<k2 of single refusals), under several option settings (default, lazy commit + immediate purge, arenas disabled, small arena) and builds. Oracle per case: no crash; every API result is NULL or a block that passes the full write/read/overlap oracle; live blocks keep their contents; only out-of-memory errors are reported; after the plan is lifted a recovery script allocates and frees blocks of all classes and after a forced collect nothing obtained directly from the OS remains mapped (minus ranges whose munmap the plan itself refused). distinct_nontrivial = cases in which at least one OS call was actually refused.",
+        rule="(two configurations let the modelled OS ignore address hints: hinted mappings come back misaligned and are replaced by trimmed over-allocations) for each of 10 workloads (small/medium churn, large, huge, over-aligned huge, threads with exit+reclaim, heaps new/delete/destroy, realloc chains, mixed, 32 arena reservations of 32 MiB followed by blocks of three kinds, a reservation of three 1 GiB huge OS pages -- granted by the modelled OS for the duration of that call only, each refusable -- followed by 40 blocks of 30 MiB; in jobs of its own) the fault-free run counts its N OS calls (mmap/munmap/mprotect/madvise through the shim); then every k < N is run with (a) a single refusal at call k and (b) persistent refusal from call k of mmap / mprotect / madvise / munmap / all kinds (thorough: also every pair k1<k2 of single refusals), under several option settings (default, lazy commit + immediate purge, arenas disabled, small arena) and builds. Oracle per case: no crash; every API result is NULL or a block that passes the full write/read/overlap oracle; live blocks keep their contents; only out-of-memory errors are reported; after the plan is lifted a recovery script allocates and frees blocks of all classes and after a forced collect nothing obtained directly from the OS remains mapped (minus ranges whose munmap the plan itself refused). distinct_nontrivial = cases in which at least one OS call was actually refused.",
         assumptions=COMMON_ASSUME + ["refusals are ENOMEM (mmap: MAP_FAILED) / EINVAL (munmap); madvise never answers EAGAIN (mimalloc retries EAGAIN forever by design)",
                                      "debug builds: madvise refusals are excluded (a failing decommit is an intended debug assertion)"])
 
@@ -383,8 +391,12 @@ def run_C18(ctx):
         if not q or m == "10":
             plan.append(("rel", "purge", [], envs(e, {"MIMALLOC_DISALLOW_ARENA_ALLOC": "1"})))
             plan.append(("rel", "purge", [], envs(e, {"MIMALLOC_ARENA_RESERVE": "64MiB"})))
+        # lazily committed segments and arenas: a released page may coalesce with spans that were never committed
+        if (not q or m == "10") and d != "-1":
+            plan.append(("rel", "purge", [], envs(e, LAZY)))
+            if not q or dc == "1": plan.append(("rel", "purge", [], envs(e, LAZY, {"MIMALLOC_DISALLOW_ARENA_ALLOC": "1"})))
     return os_property(ctx, plan, level="model_checking", parallel=8,
-        rule="scenario enumeration with the virtual clock: {what becomes unused: the last page of a size class (a 512 KiB page of 32 KiB blocks: mimalloc retires it for four fresh-page cycles; ordinary allocations alone -- no collect -- must release it and, a delay later, the release of another page must give its range back), a 1 MiB page of an abandoned segment (its owner exited with two live 1 MiB blocks, another thread frees one: a non-forced collect that visits the segment releases the page, and a second one a delay later must give it back), a 1 MiB page inside a live segment, a whole (huge) segment, everything, four huge segments (one per arena when arenas are 64 MiB: a non-forced pass purges at most two arenas and must stay armed, so three passes a delay period apart have to return all four), four non-adjacent pages of one segment, the same four pages with one of the spans taken and released again (delay+1000)/(delay-extend)+2 times before any time passes (re-use must re-arm the expiry, not accumulate it)} x {later activity: free another page of the segment, allocate in the segment, alloc+free a 40 MiB block, mi_collect(false), small fast-path traffic (negative control)} x {purge_delay -1/0/5/10} x {decommit, reset} x {arena_purge_mult 1, 10} x {arenas on, off, small}. Oracle from the shim's call log: delay 0 -> the freed range is covered by madvise/munmap before the freeing call returns; delay d>0 -> no purge of the range before the clock passes d (d*mult for whole segments) whatever happens, and after it has passed the activities that reach a purge point (page: free of another page; segment: any arena free or non-forced collect) return the range without a forced collect; delay -1 -> no purge call at all, even under mi_collect(true).",
+        rule="(also with lazily committed segments and arenas, where a released page coalesces with spans that were never committed) scenario enumeration with the virtual clock: {what becomes unused: the last page of a size class (a 512 KiB page of 32 KiB blocks: mimalloc retires it for four fresh-page cycles; ordinary allocations alone -- no collect -- must release it and, a delay later, the release of another page must give its range back), a 1 MiB page of an abandoned segment (its owner exited with two live 1 MiB blocks, another thread frees one: a non-forced collect that visits the segment releases the page, and a second one a delay later must give it back), a 1 MiB page inside a live segment, a whole (huge) segment, everything, four huge segments (one per arena when arenas are 64 MiB: a non-forced pass purges at most two arenas and must stay armed, so three passes a delay period apart have to return all four), four non-adjacent pages of one segment, the same four pages with one of the spans taken and released again (delay+1000)/(delay-extend)+2 times before any time passes (re-use must re-arm the expiry, not accumulate it)} x {later activity: free another page of the segment, allocate in the segment, alloc+free a 40 MiB block, mi_collect(false), small fast-path traffic (negative control)} x {purge_delay -1/0/5/10} x {decommit, reset} x {arena_purge_mult 1, 10} x {arenas on, off, small}. Oracle from the shim's call log: delay 0 -> the freed range is covered by madvise/munmap before the freeing call returns; delay d>0 -> no purge of the range before the clock passes d (d*mult for whole segments) whatever happens, and after it has passed the activities that reach a purge point (page: free of another page; segment: any arena free or non-forced collect) return the range without a forced collect; delay -1 -> no purge call at all, even under mi_collect(true).",
         assumptions=COMMON_ASSUME + ["time is the shim's virtual clock", "allocating inside a segment re-arms its purge delay by design, so that activity is recorded as a control only"])
 
 # ------------------------------------------------------------------------------------------------
@@ -454,7 +466,7 @@ def run_C02(ctx):
     plan = [("rel", p, B, 1, {}) for p in ("H1", "H2", "H3", "H4", "H5", "D1")] + [("rel", "E5", B, 1, RF), ("rel", "E1", B, 1, RF), ("rel", "H4", B, 0, {"VF_RESET_ZERO": "1"}), ("rel", "AB1", B, 0, RF), ("rel", "AB2", B, 0, RF), ("dbg", "H4n", B, 0, {}), ("sec", "H4n", 1 if q else B, 0, {}), ("rel", "H6", B, 1, {}), ("dbg", "H6", 1 if q else B, 0, {})]
     plan += [("dbg", "H2", 1 if q else 2, 1, {}), ("sec", "H3", 1 if q else 2, 1, {})]
     TGT = envs(RF, {"MIMALLOC_TARGET_SEGMENTS_PER_THREAD": "2"})
-    plan += [("rel", "E3c", 1 if q else 2, 0, TGT), ("dbg", "E3c", 1, 0, TGT)]
+    plan += [("rel", "E3c", 1 if q else 2, 0, TGT), ("dbg", "E3c", 1, 0, TGT), ("rel", "E3d", 2, 0, TGT)]
     plan += [(v, p, 2 if q else 3, 0, {}) for v in ("dbg", "sec") for p in ("H7", "H7f")]
     if q: plan += [("rel", ("family", 0, 700, ), 1, 0, {})]
     else: plan += [("rel", ("family", 0, 750), 2, 1, {}), ("rel", "H2", 3, 2, {}), ("rel", "H3", 3, 2, {}), ("rel", "H1", 3, 2, {}), ("rel", "H5", 3, 2, {}), ("dbg", "H5", 2, 1, {}), ("sec", "H2", 2, 1, {})]
@@ -488,11 +500,12 @@ def run_C09(ctx):
     plan += [("rel", "E3", 1 if q else 2, 0, {}), ("rel", "E3", 1 if q else 2, 0, RF), ("dbg", "E1", 1 if q else 2, 0, RF), ("dbg", "E5", 1 if q else 2, 0, RF), ("rel", "AB1", 2, 0, RF),
              ("rel", "E6", 1 if q else 2, 0, envs(NOARENA, RF, NORECL)), ("rel", "E6", 1 if q else 2, 0, envs(RF, NORECL)), ("rel", "E6", 1, 0, envs(NOARENA, NORECL)), ("dbg", "E6", 1, 0, envs(NOARENA, RF, NORECL)),
              ("rel", "E7", 1 if q else 2, 0, {}), ("rel", "E7", 1 if q else 2, 0, NORECL), ("dbg", "E7", 1, 0, {}),
-             ("rel", "E8", 2, 0, {"MIMALLOC_ARENA_RESERVE": "32MiB"}), ("dbg", "E8", 1, 0, {"MIMALLOC_ARENA_RESERVE": "32MiB"})]
+             ("rel", "E8", 2, 0, {"MIMALLOC_ARENA_RESERVE": "32MiB"}), ("dbg", "E8", 1, 0, {"MIMALLOC_ARENA_RESERVE": "32MiB"}),
+             ("rel", "E9", 2, 0, {}), ("rel", "E9", 2, 0, NOARENA), ("rel", "E9", 1 if q else 2, 0, RF), ("dbg", "E9", 1, 0, {})]
     if not q: plan += [("rel", "E1", 3, 1, RF), ("rel", "E5", 3, 1, RF), ("sec", "E1", 2, 1, RF), ("dbg", "E3", 2, 0, NOARENA), ("rel", "E3", 2, 0, ALL)]
     race = race_jobs(ctx, [(p, RF) for p in ("E1", "E2", "E3", "E4", "E5", "AB1")] + [("E1", {}), ("E2", NOARENA)])
     return conc_property(ctx, conc_jobs(ctx, plan), extra_jobs=race,
-        rule=RACE_NOTE.strip() + " E8 (32 MiB arena reserve): the exiting thread leaves a small block in an arena segment and a 40 MiB block in a segment straight from the OS; a second thread frees the big one, then a forced collect of a third thread -- which walks the arena's abandoned segments first (the small block is still live) and then the list of abandoned OS segments -- must have returned its mapping. E7: two sub-processes (mi_subproc_new / mi_subproc_add_current_thread) with one abandoned arena segment each: a thread of the second one collects (its scan passes over the segment of the main sub-process), the last block of the second sub-process' segment is then freed by a thread of the main one, and a forced collect in the second sub-process has to find and release that segment; nothing may stay mapped. E6: three segments, two of them abandoned; a free adopts the most recently abandoned one, the third thread exits, then the block in the oldest abandoned segment is freed (with segments straight from the OS this exercises unlink-last / append / lookup on the list of abandoned OS segments); nothing may stay mapped. AB1: a forced collect visits (and purges) an abandoned segment while another thread adopts it by freeing one of its blocks and allocates in its pending-purge span; programs E1 (thread exit vs remote free of one of its blocks vs an allocation that may adopt), E2 (two segments left by finished threads; two threads allocate and free into them and may both adopt), E3 (forced abandonment through mi_collect_reduce with two segments vs remote frees into both), E4 (as E1 with the allocating thread in another sub-process), E5 (two remote frees into one abandoned segment, then both freeing threads allocate) x configurations {arena segments, OS segments (arenas disabled), reclaim-on-free on/off, visit_abandoned}. Oracle: blocks of the terminated thread keep their contents and can be freed by others; anything handed out after adoption is disjoint from all live blocks (two adopters would hand out the same memory); at the end, after all blocks are freed, all threads ended and the main thread force-collected, no arena block is in use or marked abandoned, the abandoned count is 0 and no segment-sized OS mapping is left.",
+        rule=RACE_NOTE.strip() + " E9: the exiting thread owns two pages of one segment in different size classes; the block of the higher class is freed by another thread around the exit (that page is released during the exit, after the other page was abandoned): the segment must end up abandoned, not orphaned (final leak check). E8 (32 MiB arena reserve): the exiting thread leaves a small block in an arena segment and a 40 MiB block in a segment straight from the OS; a second thread frees the big one, then a forced collect of a third thread -- which walks the arena's abandoned segments first (the small block is still live) and then the list of abandoned OS segments -- must have returned its mapping. E7: two sub-processes (mi_subproc_new / mi_subproc_add_current_thread) with one abandoned arena segment each: a thread of the second one collects (its scan passes over the segment of the main sub-process), the last block of the second sub-process' segment is then freed by a thread of the main one, and a forced collect in the second sub-process has to find and release that segment; nothing may stay mapped. E6: three segments, two of them abandoned; a free adopts the most recently abandoned one, the third thread exits, then the block in the oldest abandoned segment is freed (with segments straight from the OS this exercises unlink-last / append / lookup on the list of abandoned OS segments); nothing may stay mapped. AB1: a forced collect visits (and purges) an abandoned segment while another thread adopts it by freeing one of its blocks and allocates in its pending-purge span; programs E1 (thread exit vs remote free of one of its blocks vs an allocation that may adopt), E2 (two segments left by finished threads; two threads allocate and free into them and may both adopt), E3 (forced abandonment through mi_collect_reduce with two segments vs remote frees into both), E4 (as E1 with the allocating thread in another sub-process), E5 (two remote frees into one abandoned segment, then both freeing threads allocate) x configurations {arena segments, OS segments (arenas disabled), reclaim-on-free on/off, visit_abandoned}. Oracle: blocks of the terminated thread keep their contents and can be freed by others; anything handed out after adoption is disjoint from all live blocks (two adopters would hand out the same memory); at the end, after all blocks are freed, all threads ended and the main thread force-collected, no arena block is in use or marked abandoned, the abandoned count is 0 and no segment-sized OS mapping is left.",
         assumptions=COMMON_ASSUME[:2] + SCHED_ASSUME + ["thread exit is the explicit mi_thread_done() call; the pthread-key destructor later finds the heap already released"])
 
 def run_C10(ctx):
@@ -505,22 +518,24 @@ def run_C10(ctx):
         ("rel", "P4o", "S0", 5 if q else 6, ["--observe", "owner,walk"] + pr, {}), ("dbg", "P4o", "S0", 4, ["--observe", "owner"], {}),
     ]
     cplan = [("rel", p, 2, 1, {}) for p in ("D1", "D2", "D3")] + [("dbg", "D1", 1 if q else 2, 0, {}), ("sec", "D3", 1 if q else 2, 0, {})]
+    # three threads: delete vs two frees into one full page; a freeing thread may stay descheduled across twelve consecutive pauses of the deleting one
+    cplan += [("rel", "D4", 3, 0, {"VF_FREE_SPINS": "12"}), ("rel", "D4", 2, 1, {})] + ([] if q else [("dbg", "D4", 3, 0, {"VF_FREE_SPINS": "12"})])
     if not q: cplan += [("rel", "D1", 3, 1, {}), ("rel", "D3", 3, 1, {}), ("rel", "D2", 3, 1, {})]
     race = race_jobs(ctx, [(p, {}) for p in ("D1", "D2", "D3")])
     res = conc_property(ctx, conc_jobs(ctx, cplan),
-        rule=RACE_NOTE.strip() + " P4o: the heap alphabet with heap_malloc_aligned(h1, 1000, 64 MiB) (a mapping of its own that the kernel places far above the arenas, outside the range of mimalloc's segment map). Sequential part: all sequences over {heap_new (2 slots), heap_malloc(h,8K/48), malloc (default heap), free(i), heap_delete(h), heap_destroy(h), set_default(h), collect(1)} up to depth D from start states S0/S1/S3/S4; model: blocks carry a heap id, delete relabels to the backing heap, destroy removes exactly that heap's blocks, deleting the default heap falls back to the backing heap; node oracle: all live blocks intact, mi_heap_contains_block / mi_heap_check_owned true for exactly the model's heap, heap walks agree with the model. Concurrent part: D1 (mi_heap_delete of a heap with a full page while two other threads free blocks of it), D2 (mi_heap_collect forced / not forced + allocation vs remote frees), D3 (delete of a heap with two full pages vs frees into both): every interleaving up to the preemption bound; oracle: no crash, live blocks intact, and after everything is freed and the owner collected its backing heap holds no page (a free that landed on the deleted heap's list would be lost).",
+        rule=RACE_NOTE.strip() + " D4: mi_heap_delete while two other threads each free a block of the same full page of that heap, bound 3 with the spin window widened to 12 pauses (a thread inside its delayed-freeing window can stay descheduled that long while the deleting thread drains the delayed list). P4o: the heap alphabet with heap_malloc_aligned(h1, 1000, 64 MiB) (a mapping of its own that the kernel places far above the arenas, outside the range of mimalloc's segment map). Sequential part: all sequences over {heap_new (2 slots), heap_malloc(h,8K/48), malloc (default heap), free(i), heap_delete(h), heap_destroy(h), set_default(h), collect(1)} up to depth D from start states S0/S1/S3/S4; model: blocks carry a heap id, delete relabels to the backing heap, destroy removes exactly that heap's blocks, deleting the default heap falls back to the backing heap; node oracle: all live blocks intact, mi_heap_contains_block / mi_heap_check_owned true for exactly the model's heap, heap walks agree with the model. Concurrent part: D1 (mi_heap_delete of a heap with a full page while two other threads free blocks of it), D2 (mi_heap_collect forced / not forced + allocation vs remote frees), D3 (delete of a heap with two full pages vs frees into both): every interleaving up to the preemption bound; oracle: no crash, live blocks intact, and after everything is freed and the owner collected its backing heap holds no page (a free that landed on the deleted heap's list would be lost).",
         assumptions=COMMON_ASSUME + SCHED_ASSUME, extra_jobs=seq_jobs(ctx, plan) + race)
     return res
 
 def run_C14(ctx):
     q = ctx.quick
     P0 = {"MIMALLOC_PURGE_DELAY": "0"}
-    plan = [("rel", "A1", 2, 1, {}), ("rel", "A3", 2, 1, {}), ("rel", "A2", 2, 1, {}), ("rel", "A2", 2, 1, P0), ("rel", "A1", 2, 0, P0), ("dbg", "A3", 1 if q else 2, 0, {}), ("dbg", "A2", 1 if q else 2, 0, P0)]
-    if not q: plan += [("rel", "A1", 3, 1, {}), ("rel", "A3", 3, 2, {}), ("rel", "A2", 3, 1, P0), ("sec", "A2", 2, 1, P0)]
+    plan = [("rel", "A1", 2, 1, {}), ("rel", "A3", 2, 1, {}), ("rel", "A2", 2, 1, {}), ("rel", "A2", 2, 1, P0), ("rel", "A1", 2, 0, P0), ("dbg", "A3", 1 if q else 2, 0, {}), ("dbg", "A2", 1 if q else 2, 0, P0), ("rel", "A4", 2, 0, {}), ("dbg", "A4", 1, 0, {})]
+    if not q: plan += [("rel", "A4", 3, 1, {}), ("rel", "A1", 3, 1, {}), ("rel", "A3", 3, 2, {}), ("rel", "A2", 3, 1, P0), ("sec", "A2", 2, 1, P0)]
     bjobs = conc_jobs(ctx, [("rel", "B1", 3 if q else 6, 0, {}), ("rel", "B2", 2 if q else 3, 0, {}), ("rel", "B3", 2 if q else 3, 0, {}), ("rel", "B4", 2 if q else 3, 0, {})], harness="h_bitmap") if os.path.exists(os.path.join(ctx.verif, "harness", "h_bitmap.c")) else []
     race = race_jobs(ctx, [("A1", {}), ("A2", {}), ("A3", {}), ("A2", P0), ("A1", P0)])
     return conc_property(ctx, conc_jobs(ctx, plan) + bjobs, extra_jobs=race,
-        rule=RACE_NOTE.strip() + " B4 (bitmap seam): claims of exactly one whole field (64 bits) in fields whose bit 0 is free, racing each other, a 3-bit claim and a purge-style claim of the field. Arena seam (real _mi_arena_alloc_aligned / _mi_arena_free / _mi_arenas_collect on a private exclusive arena): A1 (70-block arena with 60 blocks taken: three threads claim 5, 4 and 3 blocks so that claims cross the bitmap word boundary and compete, two free again), A3 (a cross-word claim loses its final word to a competing claim and rolls back its initial word while a third thread frees other blocks of that word), A2 (arena free -- which schedules or performs a purge -- racing allocations that may take the same blocks, plus a collector after a clock tick), with purge delay default and 0. Oracle: successful claims are pairwise disjoint and inside the arena; the first and last 64 KiB of every claimed range keep their pattern (a purge racing a claim would zero it); at quiescence the in-use bitmap holds only the left-over bits and the whole arena can be allocated in one piece.",
+        rule=RACE_NOTE.strip() + " A4: one- and two-block claims (the path of ordinary segments) in an arena of two bitmap words whose first word is full, then frees in the first word; final oracle of every arena program: after everything was freed the arena can be allocated block by block (from wherever the last claims landed) and then in one piece. B4 (bitmap seam): claims of exactly one whole field (64 bits) in fields whose bit 0 is free, racing each other, a 3-bit claim and a purge-style claim of the field. Arena seam (real _mi_arena_alloc_aligned / _mi_arena_free / _mi_arenas_collect on a private exclusive arena): A1 (70-block arena with 60 blocks taken: three threads claim 5, 4 and 3 blocks so that claims cross the bitmap word boundary and compete, two free again), A3 (a cross-word claim loses its final word to a competing claim and rolls back its initial word while a third thread frees other blocks of that word), A2 (arena free -- which schedules or performs a purge -- racing allocations that may take the same blocks, plus a collector after a clock tick), with purge delay default and 0. Oracle: successful claims are pairwise disjoint and inside the arena; the first and last 64 KiB of every claimed range keep their pattern (a purge racing a claim would zero it); at quiescence the in-use bitmap holds only the left-over bits and the whole arena can be allocated in one piece.",
         assumptions=COMMON_ASSUME[:2] + SCHED_ASSUME)
 
 def run_C16(ctx):
